@@ -23,6 +23,7 @@ pub ghost struct Kernel {
     pub forks: Seq<int>,          // pids of the children forked so far (shell side)
     pub tty_pgrp: int,            // foreground process group of the terminal
     pub pgrp: int,                // process group of this process
+    pub self_pid: int,            // pid of this process (changes in the child at fork)
 }
 pub open spec fn std3(m: Map<int, Obj>) -> bool {
     m.dom() =~= set![0int, 1int, 2int] && m[0] == Obj::Inherited(0) && m[1] == Obj::Inherited(1) && m[2] == Obj::Inherited(2)
@@ -39,26 +40,26 @@ pub fn pipe(Tracked(k): Tracked<&mut Kernel>) -> (r: Result<(RawFd, RawFd), VxEr
             && final(k).next_id == old(k).next_id + 1,
         Err(_) => final(k).fds == old(k).fds && final(k).next_id == old(k).next_id,
     },
-    final(k).cloexec == (match r { Ok(p) => old(k).cloexec.remove(p.0 as int).remove(p.1 as int), Err(_) => old(k).cloexec }) && final(k).child == old(k).child && final(k).forks == old(k).forks && final(k).tty_pgrp == old(k).tty_pgrp && final(k).pgrp == old(k).pgrp,
+    final(k).cloexec == (match r { Ok(p) => old(k).cloexec.remove(p.0 as int).remove(p.1 as int), Err(_) => old(k).cloexec }) && final(k).child == old(k).child && final(k).forks == old(k).forks && final(k).tty_pgrp == old(k).tty_pgrp && final(k).pgrp == old(k).pgrp && final(k).self_pid == old(k).self_pid,
 { unimplemented!() }
 // close(2): EBADF is silently ignored by libs::close
 #[verifier::external_body]
 pub fn close(fd: i32, Tracked(k): Tracked<&mut Kernel>)
     ensures final(k).fds == old(k).fds.remove(fd as int),
-        final(k).cloexec == old(k).cloexec.remove(fd as int) && final(k).child == old(k).child && final(k).forks == old(k).forks && final(k).next_id == old(k).next_id && final(k).tty_pgrp == old(k).tty_pgrp && final(k).pgrp == old(k).pgrp,
+        final(k).cloexec == old(k).cloexec.remove(fd as int) && final(k).child == old(k).child && final(k).forks == old(k).forks && final(k).next_id == old(k).next_id && final(k).tty_pgrp == old(k).tty_pgrp && final(k).pgrp == old(k).pgrp && final(k).self_pid == old(k).self_pid,
 { unimplemented!() }
 // dup2(2): copies the object of src onto dst when src is open, else (EBADF) nothing happens
 #[verifier::external_body]
 pub fn dup2(src: i32, dst: i32, Tracked(k): Tracked<&mut Kernel>)
     ensures final(k).fds == (if old(k).fds.contains_key(src as int) && dst >= 0 { old(k).fds.insert(dst as int, old(k).fds[src as int]) } else { old(k).fds }),
-        final(k).cloexec == (if old(k).fds.contains_key(src as int) && dst >= 0 && src != dst { old(k).cloexec.remove(dst as int) } else { old(k).cloexec }) && final(k).child == old(k).child && final(k).forks == old(k).forks && final(k).next_id == old(k).next_id && final(k).tty_pgrp == old(k).tty_pgrp && final(k).pgrp == old(k).pgrp,
+        final(k).cloexec == (if old(k).fds.contains_key(src as int) && dst >= 0 && src != dst { old(k).cloexec.remove(dst as int) } else { old(k).cloexec }) && final(k).child == old(k).child && final(k).forks == old(k).forks && final(k).next_id == old(k).next_id && final(k).tty_pgrp == old(k).tty_pgrp && final(k).pgrp == old(k).pgrp && final(k).self_pid == old(k).self_pid,
 { unimplemented!() }
 // dup(2): a descriptor not currently open, or -1
 #[verifier::external_body]
 pub fn dup(fd: i32, Tracked(k): Tracked<&mut Kernel>) -> (r: i32)
     ensures (r == -1 && final(k).fds == old(k).fds)
         || (r >= 0 && old(k).fds.contains_key(fd as int) && !old(k).fds.contains_key(r as int) && final(k).fds == old(k).fds.insert(r as int, old(k).fds[fd as int])),
-        final(k).cloexec == (if r >= 0 { old(k).cloexec.remove(r as int) } else { old(k).cloexec }) && final(k).child == old(k).child && final(k).forks == old(k).forks && final(k).next_id == old(k).next_id && final(k).tty_pgrp == old(k).tty_pgrp && final(k).pgrp == old(k).pgrp,
+        final(k).cloexec == (if r >= 0 { old(k).cloexec.remove(r as int) } else { old(k).cloexec }) && final(k).child == old(k).child && final(k).forks == old(k).forks && final(k).next_id == old(k).next_id && final(k).tty_pgrp == old(k).tty_pgrp && final(k).pgrp == old(k).pgrp && final(k).self_pid == old(k).self_pid,
 { unimplemented!() }
 pub enum ForkResult { Parent { child: i32 }, Child }
 // fork(2): the child gets a copy of the descriptor table
@@ -67,9 +68,9 @@ pub fn fork(Tracked(k): Tracked<&mut Kernel>) -> (r: Result<ForkResult, VxErrno>
     requires !old(k).child
     ensures final(k).fds == old(k).fds && final(k).cloexec == old(k).cloexec && final(k).next_id == old(k).next_id && final(k).tty_pgrp == old(k).tty_pgrp && final(k).pgrp == old(k).pgrp,
         match r {
-            Ok(ForkResult::Child) => final(k).child && final(k).forks == old(k).forks,
-            Ok(ForkResult::Parent { child }) => !final(k).child && child > 0 && final(k).forks == old(k).forks.push(child as int),
-            Err(_) => !final(k).child && final(k).forks == old(k).forks,
+            Ok(ForkResult::Child) => final(k).child && final(k).forks == old(k).forks && final(k).self_pid > 0,
+            Ok(ForkResult::Parent { child }) => !final(k).child && child > 0 && final(k).forks == old(k).forks.push(child as int) && final(k).self_pid == old(k).self_pid,
+            Err(_) => !final(k).child && final(k).forks == old(k).forks && final(k).self_pid == old(k).self_pid,
         }
 { unimplemented!() }
 #[verifier::external_body]
@@ -82,13 +83,13 @@ pub fn create_raw_fd_from_file(file_name: &str, append: bool, Tracked(k): Tracke
             || (fd >= 0 && !old(k).fds.contains_key(fd as int) && final(k).fds == old(k).fds.insert(fd as int, Obj::FileW { name: file_name@, append: append })),
         Err(_) => final(k).fds == old(k).fds,
     },
-    final(k).cloexec == (match r { Ok(fd) => if fd >= 0 { old(k).cloexec.insert(fd as int) } else { old(k).cloexec }, Err(_) => old(k).cloexec }) && final(k).child == old(k).child && final(k).forks == old(k).forks && final(k).next_id == old(k).next_id && final(k).tty_pgrp == old(k).tty_pgrp && final(k).pgrp == old(k).pgrp,
+    final(k).cloexec == (match r { Ok(fd) => if fd >= 0 { old(k).cloexec.insert(fd as int) } else { old(k).cloexec }, Err(_) => old(k).cloexec }) && final(k).child == old(k).child && final(k).forks == old(k).forks && final(k).next_id == old(k).next_id && final(k).tty_pgrp == old(k).tty_pgrp && final(k).pgrp == old(k).pgrp && final(k).self_pid == old(k).self_pid,
 { unimplemented!() }
 #[verifier::external_body]
 pub fn get_fd_from_file(file_name: &str, Tracked(k): Tracked<&mut Kernel>) -> (fd: i32)
     ensures (fd == -1 && final(k).fds == old(k).fds)
             || (fd >= 0 && !old(k).fds.contains_key(fd as int) && final(k).fds == old(k).fds.insert(fd as int, Obj::FileR { name: file_name@ })),
-    final(k).cloexec == (if fd >= 0 { old(k).cloexec.insert(fd as int) } else { old(k).cloexec }) && final(k).child == old(k).child && final(k).forks == old(k).forks && final(k).next_id == old(k).next_id && final(k).tty_pgrp == old(k).tty_pgrp && final(k).pgrp == old(k).pgrp,
+    final(k).cloexec == (if fd >= 0 { old(k).cloexec.insert(fd as int) } else { old(k).cloexec }) && final(k).child == old(k).child && final(k).forks == old(k).forks && final(k).next_id == old(k).next_id && final(k).tty_pgrp == old(k).tty_pgrp && final(k).pgrp == old(k).pgrp && final(k).self_pid == old(k).self_pid,
 { unimplemented!() }
 // std::fs::File: owns its descriptor, Drop closes it
 pub struct VFile { pub fd: i32 }
@@ -100,7 +101,7 @@ pub fn vx_file_from_raw_fd(fd: i32, Tracked(k): Tracked<&mut Kernel>) -> (f: VFi
 #[verifier::external_body]
 pub fn vx_drop_file(f: VFile, Tracked(k): Tracked<&mut Kernel>)
     ensures final(k).fds == old(k).fds.remove(f.fd as int),
-        final(k).cloexec == old(k).cloexec.remove(f.fd as int) && final(k).child == old(k).child && final(k).forks == old(k).forks && final(k).next_id == old(k).next_id && final(k).tty_pgrp == old(k).tty_pgrp && final(k).pgrp == old(k).pgrp,
+        final(k).cloexec == old(k).cloexec.remove(f.fd as int) && final(k).child == old(k).child && final(k).forks == old(k).forks && final(k).next_id == old(k).next_id && final(k).tty_pgrp == old(k).tty_pgrp && final(k).pgrp == old(k).pgrp && final(k).self_pid == old(k).self_pid,
 { unimplemented!() }
 impl VFile {
     #[verifier::external_body]
@@ -150,14 +151,15 @@ pub fn tokens_to_line(tokens: &Tokens) -> (r: String) { unimplemented!() }
 #[verifier::external_body]
 pub fn vx_reset_child_signals() { unimplemented!() }
 #[verifier::external_body]
-pub fn vx_getpid() -> (r: i32) ensures r > 0 { unimplemented!() }
+pub fn vx_getpid(Tracked(k): Tracked<&mut Kernel>) -> (r: i32) ensures r as int == old(k).self_pid, *final(k) == *old(k) { unimplemented!() }
 #[verifier::external_body]
 pub fn vx_setpgid(pid: i32, pgid: i32, Tracked(k): Tracked<&mut Kernel>)
-    ensures final(k).fds == old(k).fds && final(k).cloexec == old(k).cloexec && final(k).child == old(k).child && final(k).forks == old(k).forks && final(k).next_id == old(k).next_id && final(k).tty_pgrp == old(k).tty_pgrp,
+    ensures final(k).fds == old(k).fds && final(k).cloexec == old(k).cloexec && final(k).child == old(k).child && final(k).forks == old(k).forks && final(k).next_id == old(k).next_id && final(k).tty_pgrp == old(k).tty_pgrp
+        && final(k).self_pid == old(k).self_pid && (pid == 0 ==> final(k).pgrp == pgid as int),
 { unimplemented!() }
 #[verifier::external_body]
 pub fn give_terminal_to(gid: i32, Tracked(k): Tracked<&mut Kernel>) -> (r: bool)
-    ensures final(k).fds == old(k).fds && final(k).cloexec == old(k).cloexec && final(k).child == old(k).child && final(k).forks == old(k).forks && final(k).next_id == old(k).next_id && final(k).pgrp == old(k).pgrp,
+    ensures final(k).fds == old(k).fds && final(k).cloexec == old(k).cloexec && final(k).child == old(k).child && final(k).forks == old(k).forks && final(k).next_id == old(k).next_id && final(k).pgrp == old(k).pgrp && final(k).self_pid == old(k).self_pid,
         final(k).tty_pgrp == (if r { gid as int } else { old(k).tty_pgrp }),
 { unimplemented!() }
 
@@ -190,6 +192,10 @@ pub open spec fn base_err(i: int, n: int, capture: bool, cap_err: int) -> Obj {
 }
 // ghost description of the pipeline being wired: pipe object ids, capture pipe ids, here-string pipe id
 pub ghost struct Wiring { pub pobj: Seq<int>, pub cap_out: int, pub cap_err: int, pub hs: int }
+// C07: the process group of stage i at exec: stage 0 leads its own group, later stages join the group named by *pgid
+pub proof fn chk_pgrp(k: Kernel, i: int, pgid_at_entry: int)
+    requires k.pgrp == (if i == 0 { k.self_pid } else { pgid_at_entry }),   //@L C07.exec.stage_runs_in_the_group_of_the_first_stage
+{ }
 
 pub open spec fn pkeys(p: Seq<(i32, i32)>, a: int, b: int, fd: int) -> bool {
     exists|j: int| a <= j < b && (fd == (#[trigger] p[j]).0 || fd == p[j].1)
@@ -458,7 +464,7 @@ RSP_RW = [
        'proof { lemma_lits(); if !has_amp(cmd.redirects_to@) { lemma_files_vs_redirs(base_out(idx_cmd as int, pipes_count as int, w.pobj, options.capture_output, w.cap_out), base_err(idx_cmd as int, pipes_count as int, options.capture_output, w.cap_err), Obj::Inherited(1), Obj::Inherited(2), cmd.redirects_to@, cmd.redirects_to@.len() as int); } } proof { chk_exec_only_0_1_2_open(*k); } proof { chk_stdin(*k, *cmd, idx_cmd as int, w); } proof { chk_stdout(*k, *cmd, idx_cmd as int, pipes_count as int, w, options.capture_output); } proof { chk_stderr(*k, *cmd, idx_cmd as int, pipes_count as int, w, options.capture_output); } proof { chk_stdout_carved(*k, *cmd, idx_cmd as int, pipes_count as int, w, options.capture_output); } proof { chk_stderr_carved(*k, *cmd, idx_cmd as int, pipes_count as int, w, options.capture_output); } vx_execve_region(cl, cmd, Tracked(k));', regex=True, balanced=True, rule='R10',
        why='argv/envp CString construction, PATH lookup (exit 127 when not found) and execve: one opaque region; its REQUIRES carries the C02/C04/C08 descriptor state'),
     Rw(r'\bunsafe\s*\{', '{', regex=True, required=False, rule='R14', why='unsafe marker removed; the operations inside are shims'),
-    Rw('libc::getpid()', 'vx_getpid()', required=False, rule='R8'),
+    Rw('libc::getpid()', 'vx_getpid(Tracked(k))', required=False, rule='R8'),
     Rw(r'libc::setpgid\(', 'vx_setpgid(', regex=True, required=False, rule='R8'),
     Rw('cl.commands.get(idx_cmd).unwrap()', '&cl.commands[idx_cmd]', required=False, rule='R12', why='slice::get(i).unwrap() is indexing'),
     Rw(r'redirect_from\.clone\(\)\.(\d)', r'redirect_from.\1', regex=True, required=False, rule='R7', why='clone of a tuple only to read one field'),
@@ -493,6 +499,12 @@ run_single_program = Fn(C, 'run_single_program', ret='r', pre_rewrites=RSP_RW, f
         ('C08.rsp.shell_table_after_started_stage', '!spec_single_builtin(*cl) && final(k).forks != old(k).forks ==> ' + 'if (idx_cmd as int) < pipes@.len() { layout(final(k).fds, pipes@, idx_cmd + 1, w, *fds_capture_stdout, *fds_capture_stderr) } else { std3(final(k).fds) }'),
         ('C08.rsp.shell_table_after_failed_start', '!spec_single_builtin(*cl) && final(k).forks == old(k).forks ==> ' + 'if (idx_cmd as int) < pipes@.len() { layout(final(k).fds, pipes@, idx_cmd + 1, w, *fds_capture_stdout, *fds_capture_stderr) } else { std3(final(k).fds) }'),
         ('C08.rsp.shell_table_after_single_builtin', 'spec_single_builtin(*cl) ==> std3(final(k).fds)'),
+        ('C07.rsp.group_id_is_first_stage_pid',
+         '(idx_cmd == 0 && final(k).forks != old(k).forks ==> *final(pgid) == r) && (idx_cmd > 0 ==> *final(pgid) == *old(pgid)) && final(k).pgrp == old(k).pgrp'),
+        ('C07.rsp.terminal_only_to_foreground_first_stage',
+         'final(k).tty_pgrp != old(k).tty_pgrp ==> *final(term_given) && idx_cmd == 0 && final(k).tty_pgrp == r as int && r > 0 && !cl.background && options.isatty && old(sh).has_terminal'),
+        ('C07.rsp.single_builtin_keeps_terminal', 'spec_single_builtin(*cl) ==> final(k).tty_pgrp == old(k).tty_pgrp && *final(term_given) == *old(term_given)'),
+        ('C07.rsp.term_given_flag_monotone', '*old(term_given) ==> *final(term_given) || idx_cmd == 0'),
     ],
     loops={
         'hdr:idx_cmd + 1..pipes_count': Loop(invariant=[
@@ -551,20 +563,23 @@ run_pipeline = Fn(C, 'run_pipeline', ret='r',
     ensures=[
         ('C08.pipeline.still_the_shell', '!final(k).child && final(k).cloexec =~= Set::<int>::empty()'),
         ('C08.pipeline.shell_descriptors_unchanged', 'final(k).fds == old(k).fds'),
+        ('C07.pipeline.terminal_given_only_if_reported',
+         'final(k).tty_pgrp != old(k).tty_pgrp ==> r.0 && !cl.background && tty && final(k).tty_pgrp > 0'),
+        ('C07.pipeline.shell_group_unchanged', 'final(k).pgrp == old(k).pgrp'),
         ('C02.pipeline.at_most_one_fork_per_stage', 'old(k).forks.len() <= final(k).forks.len() <= old(k).forks.len() + cl.commands@.len()'),
     ],
     loops={
         'hdr:for _ in 0..length - 1': Loop(invariant=[
-            ('C08.inv.pipeline.created', '!k.child && k.cloexec =~= Set::<int>::empty() && length == cl.commands@.len() && length > 0 && __HI == length - 1 && pipes@.len() <= __I && (!errored_pipes ==> pipes@.len() == __I) '
+            ('C08.inv.pipeline.created', '!k.child && k.pgrp == old(k).pgrp && k.tty_pgrp == old(k).tty_pgrp && k.self_pid == old(k).self_pid && k.cloexec =~= Set::<int>::empty() && length == cl.commands@.len() && length > 0 && __HI == length - 1 && pipes@.len() <= __I && (!errored_pipes ==> pipes@.len() == __I) '
              '&& k.next_id == base_id + pipes@.len() && k.forks == old(k).forks '
              '&& layout(k.fds, pipes@, 0, mk_wiring(base_id, pipes@.len() as int, 0), None, None)'),
         ], ensures=[('C08.inv.pipeline.all_pipes_or_error', 'errored_pipes || pipes@.len() + 1 == length')]),
         'hdr:for fds in pipes': Loop(invariant=[
-            ('C08.inv.pipeline.release_on_error', '!k.child && k.cloexec =~= Set::<int>::empty() && k.forks == old(k).forks && k.fds == close_range(f_err, __V@, 0, __I as int) '
+            ('C08.inv.pipeline.release_on_error', '!k.child && k.pgrp == old(k).pgrp && k.tty_pgrp == old(k).tty_pgrp && k.self_pid == old(k).self_pid && k.cloexec =~= Set::<int>::empty() && k.forks == old(k).forks && k.fds == close_range(f_err, __V@, 0, __I as int) '
              '&& layout(f_err, __V@, 0, mk_wiring(base_id, __V@.len() as int, 0), None, None)'),
         ]),
         'hdr:for fds in &pipes': Loop(invariant=[
-            ('C08.inv.pipeline.release_on_capture_error', '!k.child && k.cloexec =~= Set::<int>::empty() && k.forks == old(k).forks && k.fds == close_range(f_err, pipes@, 0, __I as int) '
+            ('C08.inv.pipeline.release_on_capture_error', '!k.child && k.pgrp == old(k).pgrp && k.tty_pgrp == old(k).tty_pgrp && k.self_pid == old(k).self_pid && k.cloexec =~= Set::<int>::empty() && k.forks == old(k).forks && k.fds == close_range(f_err, pipes@, 0, __I as int) '
              '&& layout(f_err, pipes@, 0, w0, None, None)'),
         ]),
         'hdr:for i in 0..length': Loop(invariant=[
@@ -575,6 +590,8 @@ run_pipeline = Fn(C, 'run_pipeline', ret='r',
              '&& (!(capture && !spec_single_builtin(*cl)) ==> fds_capture_stdout.is_none() && fds_capture_stderr.is_none()) '
              '&& (if __I < length { layout(k.fds, pipes@, __I as int, mk_wiring(base_id, pipes@.len() as int, 0), fds_capture_stdout, fds_capture_stderr) } else { std3(k.fds) })'),
             ('C02.inv.pipeline.forks', 'old(k).forks.len() <= k.forks.len() <= old(k).forks.len() + __I'),
+            ('C07.inv.pipeline.tty', 'k.pgrp == old(k).pgrp && (options.isatty ==> tty) && options.background == cl.background '
+                                     '&& (k.tty_pgrp != old(k).tty_pgrp ==> term_given && !cl.background && tty && k.tty_pgrp > 0) && (__I == 0 ==> k.tty_pgrp == old(k).tty_pgrp) && (spec_single_builtin(*cl) ==> k.tty_pgrp == old(k).tty_pgrp)'),
         ]),
     },
     hints={
